@@ -42,6 +42,17 @@ Theorem C10_marked_configurations :
    "RelativisticPVector/return_f_hat=False/n=1"; "RelativisticPVector/return_f_hat=False/n=2";
    "RelativisticPVector/return_f_hat=True/n=1"; "RelativisticPVector/return_f_hat=True/n=2"]%string.
 Proof. exact marked_tags. Qed.
+(* the same when the phase space is a plain FUNCTION and formulate was called before, in the same
+   process, with ANOTHER function of the same qualified name (closures of one factory): after
+   unfolding the widths one level only the caller's function rhoX occurs, never the earlier rhoDecoy *)
+Theorem C10_history_only_callers_function :
+  forallb hist_ok gen_marked_hist = true /\
+  map fst gen_marked_hist =
+  ["RelativisticKMatrix/return_t_hat=False/n=1"; "RelativisticKMatrix/return_t_hat=False/n=2";
+   "RelativisticKMatrix/return_t_hat=True/n=1"; "RelativisticKMatrix/return_t_hat=True/n=2";
+   "RelativisticPVector/return_f_hat=False/n=1"; "RelativisticPVector/return_f_hat=False/n=2";
+   "RelativisticPVector/return_f_hat=True/n=1"; "RelativisticPVector/return_f_hat=True/n=2"]%string.
+Proof. exact history_only_callers_function. Qed.
 (* generic soundness of the syntactic check *)
 Theorem C10_occurs_sound : forall (f : string) ρ ρ',
   (forall s, csym ρ s = csym ρ' s) -> (forall g vs, g <> f -> cfn ρ g vs = cfn ρ' g vs) ->
@@ -88,6 +99,7 @@ Print Assumptions C10_F_solves_rel_2.
 Print Assumptions C10_sqrt_ok_for_real_rho.
 Print Assumptions C10_only_callers_arguments.
 Print Assumptions C10_marked_configurations.
+Print Assumptions C10_history_only_callers_function.
 Print Assumptions C10_occurs_sound.
 Print Assumptions C10_default_phsp_irrelevant.
 Print Assumptions C10_one_channel_one_pole_T_is_BW.
